@@ -575,10 +575,8 @@ def replay_paren_comment(info):
             if rc != 0:
                 continue
             ok, perr = parses(binp, out, "lua51")
-            try:
-                same = [t for t in luaexpr.tokenize(out) if t[0] != "comment" and t[1] not in "()"] == [t for t in luaexpr.tokenize(src) if t[0] != "comment" and t[1] not in "()"]
-            except luaexpr.LuaSyntaxError:
-                same = False
+            from . import c02
+            same = c02.normal_form(out) == c02.normal_form(src)       # (code tokens in order; parentheses, separators, comments and quote spelling aside)
             if not ok or not same:
                 return f"--column-width {w}: {src!r} is printed as {out!r} (code swallowed by the comment / does not re-parse)", {"source": src, "args": ["--column-width", str(w)], "output": out}
     return None, {}
@@ -699,8 +697,33 @@ def run_o2(ses, rep):
             r, m = ses.obligation(oid, cons + [z3.Or([g for g, _ in alts])], z3.Or([z3.And(g, mm(t)) for g, t in alts]), "no `- -` adjacency in any output alternative")
             if r == "sat":
                 bad += 1
-                rep.add(oid, "inconclusive", "`--` reachable in the rule composition (see C05 for the replayed report)")
+                v, rec = replay_minus_minus({})
+                if v:
+                    rep.add(oid, rep.violation({"obligation": "minus-minus"}, {"what": "`- -` can come out adjacent", "observed": v, "kind": "minus-minus", "info": {}, **rec}), v)
+                else:
+                    rep.add(oid, "inconclusive", "`--` reachable in the rule composition; the nested-negation programs all re-parse on the native build")
     return bad
+
+
+def replay_minus_minus(info):
+    binp = common.native_build("default")
+    for src in ("local y = -(-x)\n", "local y = - -x\n", "local y = -((-x)) + 1\n", "local t = { value = -((-offset)), other = 1 }\n", "return a * -(((-b))), 2\n", "local z = a - -b\n",
+                "local z = a - (-b)\n", "local w = -(-(-c))\n", "local v = -(-aaaaaaaaaaaaaaaaaaaa) + bbbbbbbbbbbbbbbbbbbbbbbbbbbbbb + cccccccccccccccccccccccccccccc\n"):
+        for w in (120, 60, 30):
+            rc, out, err = common.run_stylua(binp, src, ["--column-width", str(w)])
+            if rc != 0:
+                continue
+            ok, perr = parses(binp, out, "lua51")
+            try:
+                same = not any(t[0] == "comment" for t in luaexpr.tokenize(out))        # (the programs hold no comment)
+            except luaexpr.LuaSyntaxError:
+                same = False
+            if not ok or not same:
+                return f"--column-width {w}: {src!r} is printed as {out!r} (`--` starts a comment)", {"source": src, "args": ["--column-width", str(w)], "output": out}
+    return None, {}
+
+
+REPLAYS["minus-minus"] = replay_minus_minus
 
 
 def replay(path):
